@@ -318,3 +318,12 @@ Lemma lock_run_reneg n : forall r, lock_run [L_in] (concat (repeat ops_handle_re
 Proof. induction n as [|n IH]; intros r; [reflexivity|]. cbn [repeat concat]. rewrite <- app_assoc. cbn. apply IH. Qed.
 Theorem read_no_self_deadlock n : lock_run [] (ops_read n) = Ok [].
 Proof. unfold ops_read. cbn [app lock_run existsb]. rewrite lock_run_reneg. reflexivity. Qed.
+
+(* any sequence of post-handshake events, with the client's own writes failing or not *)
+Lemma lock_run_events evs : forall r, lock_run [L_in] (flat_map ops_post_event evs ++ r) = lock_run [L_in] r.
+Proof.
+  induction evs as [|e evs IH]; intros r; [reflexivity|]. cbn [flat_map]. rewrite <- app_assoc.
+  destruct e as [|wf|]; cbn; apply IH.
+Qed.
+Theorem read_events_no_self_deadlock evs : lock_run [] (ops_read_events evs) = Ok [].
+Proof. unfold ops_read_events. cbn [app lock_run existsb]. rewrite lock_run_events. reflexivity. Qed.
